@@ -1570,3 +1570,41 @@ Proof.
   destruct (i_sems _ _ _ I k cap len Es) as (El & _). pose proof (count_pos_of _ _ _ _ Et Hh).
   destruct len; [lia|]. eauto.
 Qed.
+
+(** The task count is exactly the number of calls between runPrelude and
+    runPostlude; a call that was refused or returned an error is not among
+    them, and the step by which a submission ends in an error (ErrUnavailable
+    from a select or from runPrelude, ErrThrottled, context.Canceled before or
+    after the slot was obtained) leaves the count as it was. *)
+Theorem task_count_exact caps s :
+  reachable caps s ->
+  num_tasks s = Z.of_nat (count in_flight (tasks s)) /\
+  forall i t, nth_error (tasks s) i = Some t -> refused t -> in_flight t = false /\ pc t = TRefused.
+Proof.
+  intros R. pose proof (reachable_inv caps s R) as I. split; [exact (i_num _ _ _ I)|].
+  intros i t Et Hr. destruct (refused_pc _ _ (Forall_nth _ _ _ _ (i_tasks _ _ _ I) Et) Hr) as (Ep & _).
+  split; [unfold in_flight; rewrite Ep; reflexivity | exact Ep].
+Qed.
+
+Theorem errored_submission_keeps_count s l s' i t t' :
+  step s l = Next s' -> nth_error (tasks s) i = Some t -> pc t <> TRefused ->
+  nth_error (tasks s') i = Some t' -> pc t' = TRefused ->
+  num_tasks s' = num_tasks s.
+Proof.
+  intros E Et Np Et' Ep'. unfold step in E. destruct (step0 s l) as [s1| |] eqn:E0; try discriminate.
+  inversion E; subst; clear E. cbn [num_tasks tick tasks] in *.
+  destruct l; cbn [step0] in E0; unfold with_task, with_thread, end_body in E0;
+    repeat match type of E0 with
+           | context [match ?x with _ => _ end] => destruct x eqn:?; try discriminate
+           end;
+    inversion E0; subst; clear E0;
+    try (unfold quiesce_test, quiesce_finish in *;
+         repeat match goal with
+                | |- context [if ?b then _ else _] => destruct b
+                | H : context [if ?b then _ else _] |- _ => destruct b
+                end);
+    simp_st; try reflexivity.
+  all: exfalso; apply nth_upd in Et'; destruct Et' as [[Hi Ht]|[Hn Et'']].
+  all: try (subst; cbn in Ep'; discriminate).
+  all: rewrite Et in Et''; inversion Et''; subst; congruence.
+Qed.
